@@ -9,8 +9,15 @@
                  ; EBuilt (newValue returned; the Updater exists iff it succeeded, store.go:768-777)
      Updater.Get = EGetBegin (u.mu taken; non-blocking receive on Ready; if a token was there, w.Get())
                  ; EGetEnd   (newValue returned: close old + replace, or keep old; err recorded; u.mu released)
-   with installs (EApply = applyUpdates under the store lock: install then notify) and lookups
-   (ELookup = LookupSecret's check + successful flight, store.go:360-408) allowed anywhere in between.
+   with installs (EApply = applyUpdates under the store lock: install then notify) and lookups allowed
+   anywhere in between.  A lookup is two steps of the Go code with a window between them: LookupSecret /
+   lookupWatcher find the name unknown (store.go:361, watcher.go:45) and only later the flight's locked
+   part runs (store.go:400-414).  ELate is that locked part ALONE, enabled in EVERY state (whatever
+   happened since the caller's check: another complete lookup of the same name, an Updater created on
+   it, polls) with an arbitrary service answer: Store.lookup_finish, i.e. the code after the F8 repair
+   (104da0c) - an entry that exists by then is kept.  ELookup (check + successful flight in one step,
+   store.go:360-414) is kept for the callers that are not overtaken; it is ELate in a state where the
+   name is unknown (lookup_finish_unknown).
    Atomicity assumption: Get holds u.mu for the whole call, so Gets of ONE updater serialise; the
    model refuses (OStuck) an EGetBegin while a build of the same updater is pending.
 
@@ -62,6 +69,8 @@ Record ustate := US { st : store; us : list updater; blog : list brec }.
 Inductive event :=
 | EApply (ups : list (name * upd1 V))
 | ELookup (n : name) (v : N) (b : V) (now : Z)
+| ELate (n : name) (ans : option (N * V)) (now : Z)
+      (* the locked part of a flight finishing at ANY later point; ans = None: the service failed *)
 | EReg (n : name) (closer : bool)
 | ERead (i : nat) (now : Z)
 | EBuilt (i : nat) (ok : bool)
@@ -106,6 +115,11 @@ Definition step (s : ustate) (e : event) : ustate * out :=
       if ok then (US s1 (us s) (blog s), OOk)
       else if allow (st s) then (US (fst (lookup_install (st s) n v b now)) (us s) (blog s), OOk)
       else (s, OFail)
+  | ELate n ans now =>
+      match ans with
+      | Some (v, b) => (US (fst (lookup_finish (st s) n v b now)) (us s) (blog s), OOk)
+      | None => (s, OFail)
+      end
   | EReg n cl =>
       let '(s1, ok) := secret_locked (st s) n in
       if ok then let '(s2, w) := add_watcher s1 n in
@@ -179,6 +193,11 @@ Definition step (s : ustate) (e : event) : ustate * out :=
       | None => (s, OStuck)
       end
   end.
+
+(* the UNREPAIRED locked part of a late flight (store.go before 104da0c): the answer is installed
+   unconditionally and no watcher is notified.  Only used to exhibit the F8 witness (Props/C15.v). *)
+Definition late_legacy (s : ustate) (n : name) (v : N) (b : V) (now : Z) : ustate :=
+  US (fst (lookup_install (st s) n v b now)) (us s) (blog s).
 
 Fixpoint run (s : ustate) (evs : list event) : ustate * list out :=
   match evs with
